@@ -349,7 +349,25 @@ func c19Lockstep(init []byte, capacity int, isNil, str bool, ops []bOp, n int, n
 			}
 		}
 		if op.Panic != "" || ob.Panic != "" || sp.Panic != "" || sb.Panic != "" {
-			break // a panic ends the history
+			// a panic ends the history as far as the model goes; a program that recovered goes on, though: a short
+			// fixed tail on both (direct comparison only): the two must still agree
+			if tr.FailAt < 0 && op.Panic != "" && op.Panic == ob.Panic {
+				for _, k := range []string{"UnreadRune", "UnreadByte", "ReadByte", "WriteByte", "ReadRune", "UnreadRune"} {
+					t := bOp{K: k, B: []byte{'x'}}
+					tp, tb := c19Apply(p, t), c19Apply(b, t)
+					xp, xb := c19State(p), c19State(b)
+					if tp.Panic != tb.Panic || !c19OutEq(tp, tb) || xp.Len != xb.Len || !bytes.Equal(xp.Str, xb.Str) {
+						tr.FailAt = i
+						tr.FailDesc = fmt.Sprintf("op %d %s panicked (%s) on both; the program recovers and goes on with %s: result %+v Len %d String %q, bytes.Buffer %+v Len %d String %q",
+							i, o.K, op.Panic, k, tp, xp.Len, xp.Str, tb, xb.Len, xb.Str)
+						break
+					}
+					if tp.Panic != "" {
+						break
+					}
+				}
+			}
+			break
 		}
 	}
 	return tr, done
@@ -746,7 +764,7 @@ func runC19(r *Run) {
 	r.Rule = "random op sequences (length <= 60) generated adaptively near the 64-byte, half-capacity, spare-capacity and 512-byte thresholds, from nil / pre-filled / string starts; thorough adds every sequence of length <= 3 over a 25-op alphabet from two starts; non-trivial = Cap() changed during the run; distinct by start + op list"
 	cmpcap := c19RupHolds()
 	r.Extra["size_class_table_confirmed_on_this_go"] = cmpcap
-	r.Extra["after_panic"] = "the history ends at the first panic (model, specification and harness); results, Len and String are compared for the panicking step too"
+	r.Extra["after_panic"] = "the history ends at the first panic for the model and the specification; results, Len and String are compared for the panicking step too, and a fixed tail of six more calls (UnreadRune, UnreadByte, ReadByte, WriteByte, ReadRune, UnreadRune) is run on both after the recovered panic and compared directly"
 
 	// fixed regression sequences (quirks the specification has to describe)
 	e := []byte("\xe2\x82\xac")
